@@ -106,7 +106,7 @@ Parse(t) ==
          [] OTHER -> Simple(t)
 (* IsReverse.  The strand of a location is given by the complement() operators above its spans: Parity(t) is the set of  *)
 (* complement-parities of its leaves ({0} forward, {1} reverse, {0,1} mixed strands).  The reader looks at the operators   *)
-(* in front of the first span (Reverse).  Before the repair 8d... it compared the first and the last position            *)
+(* in front of the first span (Reverse).  Before the repair 5b7600f it compared the first and the last position            *)
 (* (ReverseByOrder): a forward join that runs across the origin of a circular genome, join(8..9,2..4), was taken for the  *)
 (* reverse strand, and a location denoting nothing indexed an empty list.                                                  *)
 RECURSIVE Parity(_, _)
